@@ -67,12 +67,19 @@ def diff(a, b):
     return [k for k in a if a.get(k) != b.get(k)]
 
 
-def build(case):
-    """Rebuild the competition of a case by plain calls; refused calls are part of the history and stay refused."""
+def build(case, observe=False):
+    """Rebuild the competition of a case by plain calls; refused calls are part of the history and stay refused.  observe:
+    the card, the trial list and the standings are READ after every call (an official looking at the sheet)."""
     c = hjimpl.new_comp()
     intb = any(isinstance(b, int) for b in case.get('bibs', ()))
     for raw in case['calls']:
         hjimpl.apply(c, hjsearch.dec(raw, intb), bool(case.get('float_heights')))
+        if observe:
+            try:
+                c.to_matrix(); c.to_matrix(['bib']); list(c.trials); c.remaining; c.eliminated
+                [(j.place, j.ranking_key) for j in c.jumpers]
+            except Exception:
+                pass
     return c
 
 
@@ -137,6 +144,11 @@ def examine(case, draw=None, stats=None):
         if letters != ''.join(card):
             out.append(V('trials-match-cards', ['trials-differ-from-cards'], case, {'bib': b, 'trials': letters, 'card': card}))
             break
+    # (0b) reading the sheet while the competition runs changes nothing: the same calls with the card / trial list /
+    # standings read after every call end in the same competition
+    so = snap(build(case, observe=True))
+    if so != base:
+        out.append(V('log-replay', ['reads-change-the-competition'] + diff(base, so)[:2], case, {k: [base[k], so[k]] for k in diff(base, so)}))
     # (1) log replay
     r = safe_call(c.from_actions)
     if r[0] == 'exc':
